@@ -53,14 +53,13 @@ Definition run_case (c : case) : bool :=
       Z.eqb (if has_keys then pre_filter_count (fun i => nth i keysL None) (fun i => nth i keysR None) Lx Rx
              else pre_filter_count_no_keys Lx Rx) pre
   | CCum ltc n ranks dss Lx Rx mats lt sizes impl =>
-      match cartesian lt sizes with
+      match cumulative_comparisons_data lt sizes (adm_of ltc ranks dss) (map (rule_of n) mats) Lx Rx with
       | None => false
-      | Some cart =>
+      | Some tab =>
           all2 (fun (m : cumrow) (i : Z * Z * Z * Z) =>
                   match i with (rc, cum, st, ca) =>
                     Z.eqb (row_count m) rc && Z.eqb (cumulative_rows m) cum && Z.eqb (start m) st
-                    && Z.eqb (cartesian_count m) ca end)
-               (cumulative_comparisons (adm_of ltc ranks dss) (map (rule_of n) mats) cart Lx Rx) impl
+                    && Z.eqb (cartesian_count m) ca end) tab impl
       end
   | CTop nl Lx Rx keysL keysR impl =>
       let kl := fun i => nth i keysL None in let kr := fun i => nth i keysR None in
